@@ -31,7 +31,7 @@ RULE = ("record codec cases (7 types; every 32-bit field explicitly at 0, 1, 2**
         "record/frame/error branch; distinct = distinct canonical output traces")
 
 MAXP = 65519
-MUTS = ["flip", "trunc", "insert", "badpro", "badrelay", "swap", "dupkcm", "wrongkey", "badhs"]
+MUTS = ["flip", "trunc", "insert", "badpro", "badrelay", "swap", "dupkcm", "wrongkey", "badhs", "emptyframe", "emptykcm"]
 # every 32-bit field (scid, seqnum, resp_seqnum, frame length) is exercised at these values explicitly
 BOUND32 = [0, 1, 2**31 - 1, 2**31, 2**32 - 2, 2**32 - 1]
 BOUND = BOUND32 + [255, 256, 65535, 65536]
@@ -545,6 +545,13 @@ def run_conn(case):
     elif mut == "badhs":
         pieces[kcm_piece - 1] = ("handshake", frame(rng.choice([b"xx", b"", b"hs2", b"h"])))
         first_bad_piece = kcm_piece - 1
+        must_drop = True
+    elif mut in ("emptyframe", "emptykcm"):
+        # a frame with NO ciphertext (the four bytes 00 00 00 00) in the place of the peer's KCM or of a later record:
+        # anybody on the path can write it without any key, so it must never count as a keyed message
+        i = kcm_piece if mut == "emptykcm" else rng.randrange(kcm_piece, len(pieces))
+        pieces[i] = ("rec", frame(b""))
+        first_bad_piece = i
         must_drop = True
     stream = b"".join(p[1] for p in pieces)
     offs = [0]
